@@ -1129,6 +1129,73 @@ func c14ClassifyRegister(e *c14env, hs []c14h) (pattern, cause, why string) {
 			}
 		}
 	}
+	// 2b. new-old inversion: a read returned y after an earlier read had already returned x, although y's
+	// write had returned before x's write began (y is older); x's write may still be in flight, which is
+	// why rule 1 does not see it
+	for i, r1 := range reads {
+		if !strings.HasPrefix(r1.out, "v:") {
+			continue
+		}
+		sx := setOf[r1.out[2:]]
+		if sx == nil {
+			continue
+		}
+		for _, r2 := range reads[i+1:] {
+			if !(r1.ret < r2.call) || !strings.HasPrefix(r2.out, "v:") || r2.out == r1.out {
+				continue
+			}
+			sy := setOf[r2.out[2:]]
+			if sy == nil || !(sy.ret < sx.call) {
+				continue
+			}
+			return "old-value-after-newer-was-read", attribute(r2, sx, overlapping(sx) || overlapping(sy)),
+				fmt.Sprintf("%s returned the value of %s after %s had already returned the value of the later %s", r2, sy, r1, sx)
+		}
+	}
+	// 2c. absent-then-old inversion: a read found nothing although y had been written before it began (so a
+	// Delete, possibly still in flight, had taken effect), and a later read returns y again
+	for i, r1 := range reads {
+		if c14readClass(r1.out) != "absent" {
+			continue
+		}
+		for _, r2 := range reads[i+1:] {
+			if !(r1.ret < r2.call) || c14readClass(r2.out) == "absent" {
+				continue
+			}
+			var sy *c14h
+			if strings.HasPrefix(r2.out, "v:") {
+				sy = setOf[r2.out[2:]]
+				if sy == nil || !(sy.ret < r1.call) {
+					continue
+				}
+			} else { // Exists=true: every Set that could precede it had returned before the first read began
+				old := true
+				for _, s := range setOf {
+					if s.call < r2.ret && !(s.ret < r1.call) {
+						old = false
+					}
+				}
+				if !old {
+					continue
+				}
+			}
+			var del *c14h
+			for j := range hs {
+				d := &hs[j]
+				if d.op.Kind == "Delete" && d.call < r1.ret && (sy == nil || sy.ret < d.call) && (del == nil || d.call > del.call) {
+					del = d
+				}
+			}
+			ov := false
+			for _, wr := range writes {
+				if (sy == nil || wr == sy) && overlapping(wr) {
+					ov = true // the value's own Set raced with another write (tiers reached in opposite orders)
+				}
+			}
+			return "deleted-value-back-after-absence-was-read", attribute(r2, del, ov),
+				fmt.Sprintf("%s answered %s after %s had already found the key absent and no Set can lie in between", r2, r2.out, r1)
+		}
+	}
 	// 3. two reads with no write in between disagree
 	for i, r1 := range reads {
 		for _, r2 := range reads[i+1:] {
